@@ -47,7 +47,11 @@ def make_series(r, trial):
         dates = pd.DatetimeIndex(sorted(pd.Timestamp("2020-01-01") + pd.to_timedelta(np.sort(r.choice(24 * 60 * L, size=L * 2, replace=False)), unit="m")))
     else:
         dates = pd.bdate_range("2020-01-01", periods=L)
-    x = 100 * np.exp(np.cumsum(r.normal(0, .02, len(dates))))
+    inc = r.normal(0, .02, len(dates))
+    if trial % 4 == 1:
+        # flat days (two consecutive identical levels): a return of exactly zero is neither an upside nor a downside return
+        inc[r.random(len(dates)) < 0.25] = 0.0
+    x = 100 * np.exp(np.cumsum(inc))
     return pd.Series(x, index=dates), intraday
 
 
